@@ -58,6 +58,9 @@ def label_variant_cases(base, reps):
                     out.append({"seed": base + k + 1, "ops": [{"victim": victim, "at": at, "op": "reflect", "keep": True, "as": "own+suffix", "suffix": sfx,
                                                                 "which": ["last", "first"][at % 2]}]})
                     k += 2
+                # ... or only by the case of its hex digits
+                out.append({"seed": base + k, "ops": [{"victim": victim, "at": at, "op": "reflect", "keep": True, "as": "own-upper", "which": ["last", "first"][at % 2]}]})
+                k += 1
     return out
 
 
